@@ -208,10 +208,16 @@ type RetryCase struct {
 	Limit   int // RLIMIT_FSIZE during the first attempt, bytes
 	Between int // 0 nothing, 1 replace by another complete index, 2 replace by random bytes, 3 remove
 	Random  []byte
+	// AddMore rows are added between the two Flush calls
+	AddMore int
 }
 
 func (c *RetryCase) Summary() string {
-	return fmt.Sprintf("first Flush under a file size limit of %d bytes, then %s, then Flush again; writer holds %s", c.Limit, []string{"nothing happens", "another complete index is put at the path", "random bytes are put at the path", "the path is removed"}[c.Between], c.Data.Summary())
+	lim := fmt.Sprintf("under a file size limit of %d bytes", c.Limit)
+	if c.Limit < 0 {
+		lim = "without any limit (it succeeds)"
+	}
+	return fmt.Sprintf("first Flush %s, %d more rows added, then %s, then Flush again; writer holds %s", lim, c.AddMore, []string{"nothing happens", "another complete index is put at the path", "random bytes are put at the path", "the path is removed"}[c.Between], c.Data.Summary())
 }
 
 func withFileSizeLimit(limit int, f func() error) error {
@@ -240,18 +246,30 @@ func retryOracle(c *RetryCase) (firstFailed bool, err error) {
 			return false, fmt.Errorf("AddRow: %v", err)
 		}
 	}
-	ferr := withFileSizeLimit(c.Limit, func() error { return fix.Safe(w.Flush) })
+	var ferr error
+	if c.Limit < 0 {
+		ferr = fix.Safe(w.Flush)
+	} else {
+		ferr = withFileSizeLimit(c.Limit, func() error { return fix.Safe(w.Flush) })
+	}
 	if fix.IsPanic(ferr) {
 		return false, fmt.Errorf("first Flush (file size limit %d): %v", c.Limit, ferr)
 	}
-	if ferr == nil {
-		return false, nil // the index fitted under the limit: nothing to see
+	firstFailed = ferr != nil
+	// whether the first Flush failed half-way or succeeded: from here on
+	// something is (or may be) at the path, and the writer is used again
+	for i := 0; i < c.AddMore; i++ {
+		r := model.Row{"late": fmt.Sprintf("row-%d", i)}
+		if _, err := w.AddRow(r); err != nil {
+			return firstFailed, fmt.Errorf("AddRow after Flush: %v", err)
+		}
+		rows = append(rows, r)
 	}
 	switch c.Between {
 	case 1:
 		os.Remove(path)
 		if _, err := fix.BuildAt(path, []model.Row{{"somebody": "else"}, {"somebody": "else", "x": "y"}}, fix.WMemFile); err != nil {
-			return true, fmt.Errorf("INFRA: %v", err)
+			return firstFailed, fmt.Errorf("INFRA: %v", err)
 		}
 	case 2:
 		os.Remove(path)
@@ -263,43 +281,44 @@ func retryOracle(c *RetryCase) (firstFailed bool, err error) {
 	exists := derr == nil
 	serr := fix.Safe(w.Flush)
 	if fix.IsPanic(serr) {
-		return true, fmt.Errorf("second Flush: %v", serr)
+		return firstFailed, fmt.Errorf("second Flush: %v", serr)
 	}
 	if exists {
 		if serr == nil {
-			return true, fmt.Errorf("the first Flush failed (%v); the second Flush found an existing file at the path and returned no error", ferr)
+			return firstFailed, fmt.Errorf("the first Flush returned %v; the second Flush found an existing file at the path and returned no error", ferr)
 		}
 		after, derr := digest(path)
 		if derr != nil {
-			return true, fmt.Errorf("the second Flush failed (%v) but removed the existing file", serr)
+			return firstFailed, fmt.Errorf("the second Flush failed (%v) but removed the existing file", serr)
 		}
 		if after != before {
-			return true, fmt.Errorf("the second Flush failed (%v) but changed the existing file: %s -> %s", serr, before, after)
+			return firstFailed, fmt.Errorf("the second Flush failed (%v) but changed the existing file: %s -> %s", serr, before, after)
 		}
-		return true, nil
+		return firstFailed, nil
 	}
 	if serr != nil {
-		return true, nil // nothing was there and it still fails: allowed
+		return firstFailed, nil // nothing was there and it still fails: allowed
 	}
 	d := model.NewData(rows)
 	idx, _, oerr := fix.Open(path, fix.OpenCfg{CacheCap: -1})
 	if oerr != nil {
-		return true, fmt.Errorf("the second Flush (nothing at the path) returned no error, but its output does not open: %v", oerr)
+		return firstFailed, fmt.Errorf("the second Flush (nothing at the path) returned no error, but its output does not open: %v", oerr)
 	}
 	defer fix.Safe(idx.Close)
 	if perr := fix.ProbeAll(idx, d, fix.ProbeOpts{MaxRows: 300, MaxValues: 600}); perr != nil {
-		return true, fmt.Errorf("the second Flush (nothing at the path) returned no error, but its output is not the writer's content: %v", perr)
+		return firstFailed, fmt.Errorf("the second Flush (nothing at the path) returned no error, but its output is not the writer's content: %v", perr)
 	}
-	return true, nil
+	return firstFailed, nil
 }
 
 func runRetry(t interface{ Fatalf(string, ...any) }, c *RetryCase) {
+	defer fix.Track(prop, "retry", c, c.Summary())()
 	failed, err := retryOracle(c)
 	cl := []string{"retry"}
 	if failed {
 		cl = append(cl, "first-flush-failed-on-file-size-limit")
 	}
-	evid.Case(failed, c.Summary(), cl...)
+	evid.Case(failed || c.Limit < 0, c.Summary(), cl...)
 	if err != nil && strings.HasPrefix(err.Error(), "INFRA:") {
 		panic(err.Error())
 	}
@@ -309,7 +328,8 @@ func runRetry(t interface{ Fatalf(string, ...any) }, c *RetryCase) {
 }
 
 func drawRetry(t *rapid.T) *RetryCase {
-	c := &RetryCase{Limit: rapid.SampledFrom([]int{0, 4096, 8192, 16384, 20000, 32768, 40000, 70000}).Draw(t, "limit"), Between: rapid.IntRange(0, 3).Draw(t, "between")}
+	c := &RetryCase{Limit: rapid.SampledFrom([]int{-1, -1, -1, 0, 4096, 8192, 16384, 20000, 32768, 40000, 70000}).Draw(t, "limit"), Between: rapid.IntRange(0, 3).Draw(t, "between")}
+	c.AddMore = rapid.SampledFrom([]int{0, 0, 1, 3, 1200}).Draw(t, "addmore")
 	c.Random = rapid.SliceOfN(rapid.Byte(), 1, 3000).Draw(t, "random")
 	c.Data = *gen.Dataset(t, gen.DataOpts{MaxRows: 20, MaxRecipeN: 2500, RecipeProb: 40})
 	return c
@@ -501,6 +521,7 @@ func readOracle(c *ReadCase) error {
 }
 
 func runClobber(t interface{ Fatalf(string, ...any) }, c *ClobberCase) {
+	defer fix.Track(prop, "clobber", c, c.Summary())()
 	nt := c.Pre != PZero
 	evid.Case(nt, c.Summary(), "clobber", "existing:"+preName[c.Pre])
 	err := clobberOracle(c)
@@ -513,6 +534,7 @@ func runClobber(t interface{ Fatalf(string, ...any) }, c *ClobberCase) {
 }
 
 func runRead(t interface{ Fatalf(string, ...any) }, c *ReadCase) {
+	defer fix.Track(prop, "read", c, c.Summary())()
 	nq, gb, drv := 0, false, false
 	for i, qs := range c.Queries {
 		nq += len(qs)
